@@ -162,10 +162,14 @@ pub fn panic_key(msg: &str) -> (String, bool) {
         Some((f, l)) => (f, l.parse::<usize>().unwrap_or(0)),
         None => (loc, 0),
     };
-    let first: String = text
-        .lines()
-        .next()
-        .unwrap_or("")
+    // drop operand dumps and struct debug output: keep the invariant part of the message
+    let mut head = text.lines().next().unwrap_or("");
+    for cut in [": [", " {", ": Id", " ("] {
+        if let Some(i) = head.find(cut) {
+            head = &head[..i];
+        }
+    }
+    let first: String = head
         .chars()
         .map(|c| if c.is_ascii_digit() { '#' } else { c })
         .take(70)
@@ -234,9 +238,10 @@ pub fn first_per_class(fs: Vec<Finding>) -> Vec<Finding> {
 fn leaf_rank(t: &Ty) -> usize {
     match t {
         Ty::U8 => 0,
+        Ty::U64 => 1,
         Ty::String => 2,
-        Ty::Flags(n) | Ty::Enum(n) => 1 + *n as usize,
-        _ => 1,
+        Ty::Flags(n) | Ty::Enum(n) => 3 + *n as usize,
+        _ => 3,
     }
 }
 
@@ -246,6 +251,7 @@ pub fn measure(t: &Ty) -> (usize, usize) {
         let own = match t {
             Ty::FixedList(_, n) => *n as usize,
             Ty::Map(..) => 2,
+            Ty::Variant(c) => c.len(),
             Ty::Future(_) | Ty::Stream(_) => 1,
             _ if t.is_leaf() => leaf_rank(t),
             _ => 1,
@@ -321,9 +327,13 @@ pub fn shrink_candidates(t: &Ty) -> Vec<Ty> {
                 out.extend(replace_child(t, i, Some(leaf)));
             }
         }
-        // one level of the child's own shrinks, in place
-        for kc in k.children() {
-            out.extend(replace_child(t, i, Some(kc.clone())));
+        // the child's own shrinks, in place (recursively)
+        for kc in shrink_candidates(k) {
+            let is_map_key = matches!(t, Ty::Map(..)) && i == 0;
+            if is_map_key && !matches!(kc, Ty::U8 | Ty::U32 | Ty::String | Ty::Char) {
+                continue;
+            }
+            out.extend(replace_child(t, i, Some(kc)));
         }
     }
     match t {
